@@ -25,14 +25,16 @@ def replay(case):
         ss = list(cfg['ss'])
         d = len(ss)
         shape_sig = 'cyclic' if cfg['cyclic'] else 'open'
+        # the argument lists are built once and used for both calls (a call must not consume or rewrite them)
+        scr_h, tcr_h = [list(r) for r in cfg['scr'][0]], [list(r) for r in cfg['tcr'][0]]
+        scr_l = [[list(r) for r in cell] for cell in cfg['scr']]
+        tcr_l = [[list(r) for r in bond] for bond in cfg['tcr']]
         for thr in (0, 1e-14):
             try:
                 if cfg['hom']:
-                    op = slim.slim_mme_hom(ss, [list(r) for r in cfg['scr'][0]], [list(r) for r in cfg['tcr'][0]],
-                                           cyclic=cfg['cyclic'], threshold=thr)
+                    op = slim.slim_mme_hom(ss, scr_h, tcr_h, cyclic=cfg['cyclic'], threshold=thr)
                 else:
-                    op = slim.slim_mme(ss, [[list(r) for r in cell] for cell in cfg['scr']],
-                                       [[list(r) for r in bond] for bond in cfg['tcr']], threshold=thr)
+                    op = slim.slim_mme(ss, scr_l, tcr_l, threshold=thr)
             except Exception as e:
                 out.append(('slim:%s:exception:%s' % (shape_sig, type(e).__name__), 'slim_mme raised %r for %r' % (e, cfg)))
                 break
